@@ -11,6 +11,7 @@ import verif_boot  # noqa: F401
 
 def main():
   offset = float(sys.argv[1]) if len(sys.argv) > 1 else 0.0
+  prelude = int(sys.argv[2]) if len(sys.argv) > 2 else 0
   real = time.time
   time.time = lambda: real() + offset
   import numpy as np
@@ -31,6 +32,19 @@ def main():
       'discrete_shifted': ef.SingleObjectiveExperimenterFactory(ef.BBOBExperimenterFactory('Sphere', 3), shift=np.asarray([0.5, -0.25, 1.0]), discrete_dict={1: 4},
                                                                 noise_type='MODERATE_GAUSSIAN', noise_seed=9),
   }
+  exps['rotated'] = ef.BBOBExperimenterFactory('RosenbrockRotated', 3, rotation_seed=2)
+  exps['rotated_ridge'] = ef.BBOBExperimenterFactory('SharpRidge', 4, rotation_seed=3)
+  if prelude:
+    # "... or what other studies ran before in the same process": another study on the same functions and dimensions,
+    # rotated by another seed, is evaluated first
+    from vizier import pyvizier as vz
+    for fname, dim in (('RosenbrockRotated', 3), ('SharpRidge', 4), ('DifferentPowers', 3), ('DifferentPowers', 4)):
+      try:
+        e = ef.BBOBExperimenterFactory(fname, dim, rotation_seed=prelude)()
+        t = vz.Trial(parameters={pc.name: 0.5 for pc in e.problem_statement().search_space.parameters})
+        e.evaluate([t])
+      except Exception:  # pylint: disable=broad-except
+        pass
   out = {}
   for ename, efac in exps.items():
     for dname, dfac in facts.items():
